@@ -5,7 +5,7 @@ import DirectVerif.Model.PipelinePrePost
 
 `execE` refines `exec` (`execE_ok`, `execE_base`, `exec_ok_cases`); definedness of an instruction is invariant
 under positive scaling of the store (`instrDefined_scale`: the coils kept by the percentile branch are those
-whose entries do not sum to zero, and `q·Σ = 0 ↔ Σ = 0`); hence a well-typed program fails on the scaled
+that have a non-zero entry, and `q·a = 0 ↔ a = 0`); hence a well-typed program fails on the scaled
 input exactly when it fails on the original one, with the same error (`execE_sound`).
 -/
 set_option linter.unusedSectionVars false
